@@ -111,7 +111,7 @@ def case_runs(quick):
         ("flags3", dict(n=3, flags=FLAGS_SMALL)),
         ("listsT", dict(n=3, flags=(0, 1, 2, 3), tin=(1, 2), tout=(1, 2))),
         ("listsO", dict(n=3, flags=(0, 128), act=(1, 2), bsk=(0, 1, 2))),
-        ("four", dict(n=4, opt=("o1",), flags=(3, 131))),
+        ("four", dict(n=4, opt=("o1",), flags=(131,) if quick else (3, 131))),
     ]
     return runs
 
